@@ -798,6 +798,20 @@ def fam_order(tier, seed, extra=()):
     # constant operands never remove an effectful sibling of any operator
     out.append(Case("order/mul_zero", PRE + "r := t(1) * 0 + 0 * t(2) + (t(3) & 0); (r, *log)", (0, 123)))
     out.append(Case("order/add_zero", PRE + "r := t(5) + 0 - 0 + t(2) * 1; (r, *log)", (7, 52)))
+    # a constant that makes the result independent of the other operand never removes that operand's effects
+    out.append(Case("order/repeat_zero", PRE + "r := [t(7); 0]; (r, *log)", ([], 7)))
+    out.append(Case("order/repeat_zero_folded_len", PRE + "n := 3 - 3; r := [t(7); n]; (r, *log)", ([], 7)))
+    out.append(Case("order/repeat_zero/fn", PRE + "f := () -> int { r := [t(7); 0]; return *log }; f()", 7))
+    out.append(Case("order/repeat_zero_captured_len", PRE + "mk := (n: int) -> () -> int { return () -> int { r := [t(7); n]; return 0 } }; mk(0)(); *log", 7))
+    out.append(Case("order/slice_empty", PRE + "r := [t(1), t(2)][0:0]; (r, *log)", ([], 12)))
+    out.append(Case("order/slice_step_zero", PRE + "r := [t(1), t(2)][::0]; (r, *log)", ([], 12)))
+    out.append(Case("order/shift_zero", PRE + "r := (t(1) << 0) + (0 >> t(2)) + (t(3) ** 0); (r, *log)", (2, 123)))
+    out.append(Case("order/xor_self_and_all", PRE + "r := (t(5) | (0 - 1)) + (t(6) & 0) + (t(7) % 1); (r, *log)", (-1, 567)))
+    out.append(Case("order/compare_constant_result", PRE + "r := (t(1) >= (0 - 9223372036854775807 - 1)) && (t(2) <= 9223372036854775807); (r, *log)", (True, 12)))
+    out.append(Case("order/tuple_access_drops_nothing", PRE + "r := (t(1), t(2), t(3)).0; (r, *log)", (1, 123)))
+    out.append(Case("order/field_access_drops_nothing", PRE + "r := struct{a := t(1), b := t(2)}.b; (r, *log)", (2, 12)))
+    out.append(Case("order/if_same_branches", PRE + "r := if tb(1, true) 5 else 5; (r, *log)", (5, 1)))
+    out.append(Case("order/match_single_arm", PRE + "r := match t(4) { => 5, }; (r, *log)", (5, 4)))
     # assignment: target, then value
     out.append(Case("order/assign", PRE + "c := mut 0; pick := (k: int) -> mut int { log = *log * 10 + k; return c }; "
                     "r := (pick(1) = t(2)); (r, *c, *log)", (2, 2, 12)))
